@@ -10,11 +10,11 @@ T=$(scripts/build.sh tsan) || exit 2
 EVID="${VERIF_EVIDENCE_DIR:-/verif/evidence}"
 mkdir -p "$EVID" replays .build/run
 EA=.build/run/C18-asan-$$.json; ET=.build/run/C18-tsan-$$.json
+"$A" check --property C18 --tier "$MODE" --seed "$VERIF_SEED" --evidence "$EA" --known /verif/known_findings.json; ra=$?
+"$T" check --property C18 --tier "$MODE" --seed "$VERIF_SEED" --evidence "$ET" --known /verif/known_findings.json; rt=$?
+# a violation confirmed by either build stands (exit 1) whatever the other build's run thought of its own health
 RC=0
-"$A" check --property C18 --tier "$MODE" --seed "$VERIF_SEED" --evidence "$EA" --known /verif/known_findings.json; r=$?
-[ $r -gt $RC ] && RC=$r
-"$T" check --property C18 --tier "$MODE" --seed "$VERIF_SEED" --evidence "$ET" --known /verif/known_findings.json; r=$?
-[ $r -gt $RC ] && RC=$r
+if [ $ra -eq 1 ] || [ $rt -eq 1 ]; then RC=1; elif [ $ra -ne 0 ] || [ $rt -ne 0 ]; then RC=2; fi
 if [ $RC -ne 2 ] && [ -f "$EA" ] && [ -f "$ET" ]; then
 python3 - "$EA" "$ET" "$EVID/C18.json" <<'PY'
 import json, sys
